@@ -376,6 +376,22 @@ class Interp:
             raise Unsupported("bitwise not on symbolic integers")
         return _ew1(P.b_not, v[0])
 
+    def p_unstack(self, eqn, v):
+        """tuple unpacking of an array (`a, b = arr`): one output per index along `axis`"""
+        a = to_obj(v[0]) if not is_sym(v[0]) else v[0]
+        ax = eqn.params.get("axis", 0)
+        outs = []
+        for k in range(a.shape[ax]):
+            idx = [slice(None)] * a.ndim
+            idx[ax] = k
+            sub = a[tuple(idx)]
+            if not isinstance(sub, np.ndarray):
+                z = np.empty((), dtype=object)
+                z[()] = sub
+                sub = z
+            outs.append(sub)
+        return outs
+
     def p_select_n(self, eqn, v):
         pred, cases = v[0], v[1:]
         if not is_sym(pred):
